@@ -23,7 +23,7 @@ deactivation; every non-one-shot engine consults its LSC on the path completing 
 reachable only from __init__ and run_metaepoch, and run_metaepoch is called only by
 DemeTree.run_metaepoch; (R06.7) a deme's metaepoch counter is len(history) - 1.
 """
-CLAIM = """Decides the lifecycle clause path-sensitively: `_active` True only at construction and False only by the deme itself; only active demes are stepped, once per iteration (hibernation skip excepted); exactly one history append per run_metaepoch path and nothing but append touches the history; each deactivation justified by a true GSC verdict / true LSC verdict after the append / true engine-stop predicate / one-shot engine, and such verdicts always deactivate; evaluations in deme classes reachable only from __init__/run_metaepoch; metaepoch counter = len(history) - 1. (R06.12) a deme evaluates only through its own counting wrapper; (R06.13) the stop conditions consulted are the configured objects, not copies; (R06.14) only the deme itself writes its history."""
+CLAIM = """Decides the lifecycle clause path-sensitively: `_active` True only at construction and False only by the deme itself; only active demes are stepped, once per iteration (hibernation skip excepted); exactly one history append per run_metaepoch path and nothing but append touches the history; each deactivation justified by a true GSC verdict / true LSC verdict after the append / true engine-stop predicate / one-shot engine, and such verdicts always deactivate; evaluations in deme classes reachable only from __init__/run_metaepoch; metaepoch counter = len(history) - 1. (R06.12) a deme evaluates only through its own counting wrapper; (R06.13) the stop conditions consulted are the configured objects, not copies; (R06.14) only the deme itself writes its history. (R06.15) no deme class keeps run state in class-body containers shared by its instances. A repeated GSC consult with nothing evaluated since a true verdict has no feasible false edge."""
 NOTE = """Behaviour of user-defined LSCs is not analysed; cma's stop() is treated as the engine self-stop predicate."""
 TECHNIQUE = "custom ast/CFG path-sensitive typestate + who-may-write / who-may-call checks"
 ASSUMPTIONS = [
@@ -523,6 +523,14 @@ def r06_8(ctx: Ctx):
             return s
 
         at, exits, parent = typestate(cfg, [(False, False)], node_fn, edge_fn)
+        # the predicate is handed on as a bound method (`(self._cma_es.stop, "...")` in a table of checks) or called inside a
+        # lambda: when it is consulted is decided elsewhere
+        called = {id(c.func) for c in body_walk(f.node) if isinstance(c, ast.Call)}
+        in_lambda = {id(x) for l_ in body_walk(f.node) if isinstance(l_, ast.Lambda) for x in ast.walk(l_)}
+        handed = [x for x in body_walk(f.node) if isinstance(x, ast.Attribute) and x.attr == "stop" and is_self_attr(x.value, eng, selfn) and (id(x) not in called or id(x) in in_lambda)]
+        if handed and (viol or bad_calls or any((s[0] is True or s[0] == "STOP") and not s[1] for s in exits)):
+            obs.append(ctx.ob("R06.8", f, handed[0], status=INCONCLUSIVE, detail=f"{ci.name}: the engine's stop predicate is handed on as a callable (`{norm(handed[0])}`): where it is consulted is not followed", construct="stop-handed-on"))
+            continue
         for n in bad_calls[:1]:
             obs.append(ctx.ob("R06.8", f, n.stmt, status=VIOLATION, detail=f"{ci.name}: `{n.label}` passes arguments to the engine's stop(): the termination criteria are not re-evaluated (a cached verdict is read)", construct="stop-args"))
         for n, s, msg in viol[:1]:
